@@ -32,12 +32,13 @@ type c09Case struct {
 	Fault   string `json:"fault"` // complete | abort-after-hello | stall | garbage
 	Between bool   `json:"between"`
 	Plain   bool   `json:"plain_port"`
-	Burst   bool   `json:"burst,omitempty"` // the faulty client and the next valid client connect concurrently
+	ViaCfg  bool   `json:"via_tls_config,omitempty"` // the server gets a ready tls.Config (SetTLSConfig) instead of certificate files
+	Burst   bool   `json:"burst,omitempty"`          // the faulty client and the next valid client connect concurrently
 	Choices []int  `json:"choices,omitempty"`
 }
 
 func (c c09Case) name() string {
-	return fmt.Sprintf("%s|%s|%s|between=%v|plain=%v|burst=%v", c.Config, c.Cred, c.Fault, c.Between, c.Plain, c.Burst)
+	return fmt.Sprintf("%s|%s|%s|between=%v|plain=%v|burst=%v|viacfg=%v", c.Config, c.Cred, c.Fault, c.Between, c.Plain, c.Burst, c.ViaCfg)
 }
 
 var c09Creds = []string{"none", "plain-text", "self-signed", "foreign-ca", "expired", "wrong-name", "name-on-intermediate", "wrong-name+forged-extra", "valid"}
@@ -203,12 +204,16 @@ func (w *c09World) body() {
 		s.SetPort(0)
 	}
 	s.SetTLSPort(c09TLSPort)
-	if e := s.SetTLSCertFile(kit.ServerCert); e != nil {
-		w.err = e.Error()
-		return
+	if w.cs.ViaCfg {
+		s.SetTLSConfig(&tls.Config{MinVersion: tls.VersionTLS12, Certificates: []tls.Certificate{kit.ServerTLS}, ClientCAs: kit.Pool, ClientAuth: tls.RequireAndVerifyClientCert})
+	} else {
+		if e := s.SetTLSCertFile(kit.ServerCert); e != nil {
+			w.err = e.Error()
+			return
+		}
+		s.SetTLSKeyFile(kit.ServerKey)
+		s.SetTLSCaCertFile(kit.CAFile)
 	}
-	s.SetTLSKeyFile(kit.ServerKey)
-	s.SetTLSCaCertFile(kit.CAFile)
 	if w.cs.Config != "norule" {
 		s.AddAuthenticator(auth.NewCertificateAuthenticatorWith(auth.WithCommonName("localhost")))
 	}
@@ -358,6 +363,12 @@ func c09Cases() []c09Case {
 			}
 		}
 	}
+	// the same gate when the application hands the server a ready tls.Config
+	for _, cfg := range c09Configs {
+		for _, cred := range c09Creds {
+			out = append(out, c09Case{Config: cfg, Cred: cred, Fault: "complete", Plain: true, ViaCfg: true})
+		}
+	}
 	return out
 }
 
@@ -443,7 +454,7 @@ func init() {
 	fw.Register(&fw.Prop{
 		ID:    "C09",
 		Level: "model_checking",
-		Rule:  "complete product: server configuration {no rule, common-name rule, rule + password} x client credential {none, plain-text bytes, self-signed, foreign CA, expired, right CA wrong name, right name only on an intermediate, right CA wrong name followed by a self-made certificate with the right name, valid} x handshake fault {complete, abort after ClientHello, stall, garbage} x placement {faulty client first; between two valid clients} x plain port {on, off} = 432 scenarios, plus 216 'burst' scenarios in which the faulty client and the following valid client connect concurrently (their sockets can be accepted back to back). The server is configured through its public API and started with Start(); the REAL crypto/tls handshake runs on both sides over the in-memory transport under the cooperative scheduler (clients are tls.Client in harness threads). After the faulty client (and while a stalled one is still connected) a valid TLS client must complete handshake, GET and PING, and a plain client must PING; judged at quiescence, no timers. Quick: every schedule with at most one deviation from the default scheduler; thorough: two.",
+		Rule:  "complete product: server configuration {no rule, common-name rule, rule + password} x client credential {none, plain-text bytes, self-signed, foreign CA, expired, right CA wrong name, right name only on an intermediate, right CA wrong name followed by a self-made certificate with the right name, valid} x handshake fault {complete, abort after ClientHello, stall, garbage} x placement {faulty client first; between two valid clients} x plain port {on, off} = 432 scenarios, plus 27 scenarios in which the server is given a ready tls.Config (SetTLSConfig) instead of certificate files, plus 216 'burst' scenarios in which the faulty client and the following valid client connect concurrently (their sockets can be accepted back to back). The server is configured through its public API and started with Start(); the REAL crypto/tls handshake runs on both sides over the in-memory transport under the cooperative scheduler (clients are tls.Client in harness threads). After the faulty client (and while a stalled one is still connected) a valid TLS client must complete handshake, GET and PING, and a plain client must PING; judged at quiescence, no timers. Quick: every schedule with at most one deviation from the default scheduler; thorough: two.",
 		Assumptions: []string{
 			"certificates are generated per run with crypto/x509 (ECDSA P-256); their random keys change bytes, not control flow",
 			"the in-memory transport stands for TCP; a stalled client is one that connects and never sends",
